@@ -54,6 +54,7 @@ type Engine struct {
 	Workers    int
 	Portfolio  bool
 	CrossEach  int
+	CrossFirst int
 	Verbose    bool
 	initAllow  []string
 	typeCache  map[string]types.Type
@@ -239,6 +240,7 @@ func (e *Engine) RunEntry(cfg *EntryCfg, deadline time.Time) (*EntryResult, erro
 		}
 		sol.Portfolio = e.Portfolio
 		sol.CrossEach = e.CrossEach
+		sol.CrossFirst = e.CrossFirst
 		defer func() {
 			mu.Lock()
 			mergeStats(&res.Stats, &sol.Stats)
